@@ -4,7 +4,7 @@ from __future__ import annotations
 import random
 
 import facto_rich as fr
-from gen_scalar import Gen, SIGNALS, program_safe
+from gen_scalar import Gen, SIGNALS, program_safe, s14_free
 
 PROTOS = ["small-lamp"]
 
@@ -158,9 +158,10 @@ def gen_rich(seed, **kw):
             el = fr.elaborate(st)
         except Exception:  # noqa: BLE001
             continue
-        if not program_safe(el.flat):
+        if not program_safe(el.flat) or not s14_free(el.flat):
             continue
-        ok = all(program_safe(el.flat + [("sig", "_", e["enable"])]) for e in el.entities if e["enable"] is not None)
+        ok = all(program_safe(el.flat + [("sig", "_", e["enable"])]) and s14_free(el.flat + [("sig", "_", e["enable"])])
+                 for e in el.entities if e["enable"] is not None)
         pos = [(e["x"], e["y"]) for e in el.entities]
         if ok and len(set(pos)) == len(pos):
             return st, el
